@@ -916,4 +916,168 @@ Section Sim.
           destruct done; [exact H5|]. split; [lia|]. split; [lia|]. rewrite H1. exact Hs.
   Qed.
 
+  Lemma nth_firstn_lt : forall k (l : list Z) j, (j < k)%nat -> nth j (firstn k l) 0 = nth j l 0.
+  Proof.
+    induction k as [|k IH]; intros l j Hj; [lia|].
+    destruct l as [|x l]; [reflexivity|]. destruct j as [|j]; [reflexivity|]. cbn [firstn nth]. apply IH. lia.
+  Qed.
+
+  Lemma skipn_add : forall b a (l : list Z), skipn (a + b) l = skipn a (skipn b l).
+  Proof.
+    induction b as [|b IH]; intros a l.
+    - replace (a + 0)%nat with a by lia. reflexivity.
+    - destruct l as [|x l].
+      + rewrite !skipn_nil. reflexivity.
+      + replace (a + S b)%nat with (S (a + b)) by lia. cbn [skipn]. apply IH.
+  Qed.
+
+  (* outcome of a (possibly cut) sequence that produces [want] bytes when complete *)
+  Definition part_post (o want : Z) (rout1 : list Z) (next : dstate -> Prop) (done : bool) (s' : dstate) : Prop :=
+    op s' = o + Z.min want (oend - o) /\
+    out_at (vget (dm s')) (op s') (skipn (Z.to_nat (want - Z.min want (oend - o))) rout1) /\
+    (if done then op s' = oend else Z.min want (oend - o) = want /\ next s').
+
+  (* from the state after the (complete) literals to the end of the (possibly cut) match *)
+  Lemma after_lits_part (i o : Z) (m1 : mem) kf nib o1 o2 r3 ml r4 rout0 rout1 :
+    partial = true ->
+    0 <= nib <= 15 -> bytes (o1 :: o2 :: r3) ->
+    src_at srcm i (o1 :: o2 :: r3) -> 0 <= i -> i + Z.of_nat (length (o1 :: o2 :: r3)) <= iend ->
+    read_len nib r3 = Some (ml, r4) -> (4 <= length r4)%nat ->
+    out_at (vget m1) o rout0 -> Z.of_nat (length rout0) <= o - lowPrefix -> 0 <= o -> o <= oend ->
+    copy_match rout0 (Z.to_nat (o1 + 256 * o2)) (Z.to_nat (ml + 4)) = Some rout1 ->
+    1 <= o1 + 256 * o2 ->
+    is_cont_or_done (copy_match_lbl partial dict srcm iend oend lowPrefix rlow dictm dictSize
+                       (mkD (i + 2) o m1 kf) (o1 + 256 * o2) nib)
+      (part_post o (ml + 4) rout1
+         (fun s' => ip s' = i + 2 + (Z.of_nat (length r3) - Z.of_nat (length r4)) /\ src_at srcm (ip s') r4)).
+  Proof.
+    intros Hp Hnib Hb Hs Hi Hie Hrl Hr4 O Hlen Ho Hoe Hcm Hoff.
+    unfold byte in *.
+    destruct (src_at_cons _ _ _ _ Hs) as [_ Hs1]. destruct (src_at_cons _ _ _ _ Hs1) as [_ Hs2].
+    destruct (bytes_cons _ _ Hb) as [_ Hb1]. destruct (bytes_cons _ _ Hb1) as [_ Hb2].
+    replace (i + 1 + 1) with (i + 2) in Hs2 by lia.
+    cbn [length] in Hie.
+    assert (Hml : 0 <= ml).
+    { unfold read_len in Hrl. destruct (nib =? 15); [apply read_ext_ge in Hrl; [lia | exact Hb2] | inversion Hrl; lia]. }
+    assert (Hoffle : o1 + 256 * o2 <= Z.of_nat (length rout0)).
+    { replace (Z.to_nat (ml + 4)) with (S (Z.to_nat (ml + 3))) in Hcm by lia.
+      apply copy_match_off in Hcm. unfold byte in *. lia. }
+    eapply is_cod_mono.
+    - apply (copy_match_lbl_part (mkD (i + 2) o m1 kf) (o1 + 256 * o2) nib r3 ml r4); cbn [ip op dm]; unfold byte in *; try assumption; try lia.
+    - cbn [ip op dm]. unfold byte in *. intros done s' (H1 & H2 & H3 & _ & H5).
+      set (n := Z.min (ml + 4) (oend - o)) in *.
+      assert (Hn : 0 <= n <= ml + 4) by (unfold n; lia).
+      unfold part_post. fold n. split; [exact H1|]. split.
+      + replace (Z.to_nat (ml + 4)) with (Z.to_nat n + Z.to_nat (ml + 4 - n))%nat in Hcm by lia.
+        destruct (copy_match_prefix _ _ _ _ _ Hcm) as (rc & Hc1 & Hc2).
+        apply copy_match_skipn in Hc2. unfold byte in *. rewrite Hc2. rewrite H1.
+        replace n with (Z.of_nat (Z.to_nat n)) at 1 by lia.
+        apply copy_match_out with (rout := rout0) (off := Z.to_nat (o1 + 256 * o2)).
+        * lia.
+        * exact Hc1.
+        * eapply out_at_v_same_below; eauto.
+        * replace (Z.of_nat (Z.to_nat (o1 + 256 * o2))) with (o1 + 256 * o2) by lia.
+          replace (Z.of_nat (Z.to_nat n)) with n by lia. exact H3.
+      + destruct done; [exact H5|]. destruct H5 as (H5 & H6 & H7). split; [lia|]. split; assumption.
+  Qed.
+
+  (* [safe_lit] in partial mode on a literal run that is followed by a match *)
+  Lemma safe_lit_part s tok lits o1 o2 r3 ml r4 rout rout1 :
+    partial = true ->
+    0 <= tok < 256 -> bytes (lits ++ o1 :: o2 :: r3) ->
+    src_at srcm (ip s) (lits ++ o1 :: o2 :: r3) -> 0 <= ip s ->
+    ip s + Z.of_nat (length (lits ++ o1 :: o2 :: r3)) <= iend ->
+    read_len (tok mod 16) r3 = Some (ml, r4) -> (6 <= length r4)%nat ->
+    out_at (vget (dm s)) (op s) rout -> Z.of_nat (length rout) <= op s - lowPrefix -> 0 <= op s -> op s <= oend ->
+    copy_match (rev lits ++ rout) (Z.to_nat (o1 + 256 * o2)) (Z.to_nat (ml + 4)) = Some rout1 ->
+    1 <= o1 + 256 * o2 -> 0 <= ml ->
+    is_cont_or_done (safe_lit partial dict srcm iend oend lowPrefix rlow dictm dictSize s tok (Z.of_nat (length lits)))
+      (part_post (op s) (Z.of_nat (length lits) + (ml + 4)) rout1
+         (fun s' => ip s' = ip s + Z.of_nat (length lits) + 2 + (Z.of_nat (length r3) - Z.of_nat (length r4)) /\
+                    src_at srcm (ip s') r4)).
+  Proof.
+    intros Hp Htok Hb Hs Hip Hie Hrl Hr4 O Hlen Hop Hoe Hcm Hoff Hml.
+    unfold byte in *.
+    destruct (src_at_app _ _ _ _ Hs) as [Hsl Hs2].
+    destruct (bytes_app _ _ Hb) as [_ Hb2].
+    rewrite app_length in Hie. cbn [length] in Hie.
+    assert (Hr43 : (length r4 <= length r3)%nat).
+    { unfold read_len in Hrl. destruct (tok mod 16 =? 15).
+      - apply read_ext_shorter in Hrl. unfold byte in *. lia.
+      - inversion Hrl; subst. lia. }
+    pose proof (copy_match_skipn _ _ _ _ Hcm) as Hsk.
+    set (ll := Z.of_nat (length lits)) in *.
+    unfold safe_lit. cbv zeta.
+    set (CML := copy_match_lbl partial dict srcm iend oend lowPrefix rlow dictm dictSize).
+    rewrite Hp. cbn [negb andb].
+    destruct ((op s + ll >? oend - MFLIMIT) || (ip s + ll >? iend - (2 + 1 + LASTLITERALS))) eqn:Enear; cbv beta iota.
+    - (* the literal run ends within 12 bytes of oend (or beyond) *)
+      assert (Hnear : op s + ll > oend - 12) by fin.
+      assert (Ec1 : (ip s + ll >? iend) = false) by lia. rewrite Ec1. cbv beta iota.
+      destruct (op s + ll >? oend) eqn:Eclip; cbv beta iota.
+      + (* clipped: stop inside the literals *)
+        assert (Ed : (oend =? oend) || (ip s + (oend - op s) >=? iend - 2) = true) by lia.
+        rewrite orb_false_l, Ed. cbn [is_cont_or_done]. unfold part_post. cbn [op dm].
+        replace (Z.min (ll + (ml + 4)) (oend - op s)) with (oend - op s) by lia.
+        split; [lia|]. split; [|lia].
+        replace (Z.to_nat (ll + (ml + 4) - (oend - op s))) with (Z.to_nat (ll - (oend - op s)) + Z.to_nat (ml + 4))%nat by lia.
+        unfold byte in *. rewrite skipn_add, Hsk.
+        replace (Z.to_nat (ll - (oend - op s))) with (length lits - Z.to_nat (oend - op s))%nat by lia.
+        rewrite <- rev_firstn_skipn by lia.
+        replace (op s + (oend - op s)) with (op s + Z.of_nat (length (firstn (Z.to_nat (oend - op s)) lits))) by (rewrite firstn_length; lia).
+        apply lits_out_v with (m := dm s); try assumption.
+        * apply blit_same_below.
+        * apply blit_lits; [|rewrite firstn_length; lia].
+          intros j Hj. rewrite firstn_length in Hj. rewrite Hsl by lia.
+          symmetry. apply nth_firstn_lt. lia.
+      + destruct (op s + ll =? oend) eqn:Eeq.
+        * (* the literals end exactly at oend *)
+          cbn [orb]. cbn [is_cont_or_done]. unfold part_post. cbn [op dm].
+          replace (Z.min (ll + (ml + 4)) (oend - op s)) with ll by lia.
+          split; [lia|]. split; [|lia].
+          replace (Z.to_nat (ll + (ml + 4) - ll)) with (Z.to_nat (ml + 4)) by lia. unfold byte in *. rewrite Hsk.
+          unfold ll. rewrite Nat2Z.id.
+          apply lits_out_v with (m := dm s); try assumption.
+          -- apply blit_same_below.
+          -- apply blit_lits; [exact Hsl | lia].
+        * (* complete literals, then a match that is necessarily cut or ends near oend *)
+          cbn [orb].
+          assert (Ed : (ip s + ll >=? iend - 2) = false) by lia.
+          rewrite Ed. cbv beta iota. cbn [ip op dm]. subst CML.
+          rewrite (readLE16_src _ _ _ _ Hs2).
+          eapply is_cod_mono.
+          -- apply (after_lits_part (ip s + ll) (op s + ll)) with (r3 := r3) (r4 := r4) (ml := ml) (rout0 := rev lits ++ rout) (rout1 := rout1); unfold byte in *; try assumption; try lia.
+             ++ pose proof (Z.mod_pos_bound tok 16). lia.
+             ++ cbn [length]. lia.
+             ++ unfold ll. rewrite Nat2Z.id.
+                apply lits_out_v with (m := dm s); try assumption.
+                ** apply blit_same_below.
+                ** apply blit_lits; [exact Hsl | lia].
+             ++ rewrite app_length, rev_length. lia.
+          -- unfold part_post. unfold byte in *. intros done s' (H1 & H2 & H3).
+             replace (Z.min (ll + (ml + 4)) (oend - op s)) with (ll + Z.min (ml + 4) (oend - (op s + ll))) by lia.
+             split; [lia|]. split.
+             ++ replace (ll + (ml + 4) - (ll + Z.min (ml + 4) (oend - (op s + ll)))) with (ml + 4 - Z.min (ml + 4) (oend - (op s + ll))) by lia.
+                exact H2.
+             ++ destruct done; [exact H3|]. destruct H3 as [H3 H4]. split; [lia|]. destruct H4 as [H4 H5]. split; [lia | exact H5].
+    - (* far from oend: wild copy of the literals, then the match *)
+      cbn [ip op dm]. subst CML.
+      rewrite (readLE16_src _ _ _ _ Hs2).
+      eapply is_cod_mono.
+      + apply (after_lits_part (ip s + ll) (op s + ll)) with (r3 := r3) (r4 := r4) (ml := ml) (rout0 := rev lits ++ rout) (rout1 := rout1); unfold byte in *; try assumption; try fin.
+        * pose proof (Z.mod_pos_bound tok 16). lia.
+        * cbn [length]. fin.
+        * apply lits_out_v with (m := dm s); try assumption.
+          -- apply wild8_in_same_below.
+          -- apply wild8_in_lits. exact Hsl.
+        * rewrite app_length, rev_length. lia.
+      + unfold part_post. unfold byte in *. intros done s' (H1 & H2 & H3).
+        assert (Hfar : op s + ll <= oend - 12) by fin.
+        replace (Z.min (ll + (ml + 4)) (oend - op s)) with (ll + Z.min (ml + 4) (oend - (op s + ll))) by lia.
+        split; [lia|]. split.
+        * replace (ll + (ml + 4) - (ll + Z.min (ml + 4) (oend - (op s + ll)))) with (ml + 4 - Z.min (ml + 4) (oend - (op s + ll))) by lia.
+          exact H2.
+        * destruct done; [exact H3|]. destruct H3 as [H3 H4]. split; [lia|]. destruct H4 as [H4 H5]. split; [lia | exact H5].
+  Qed.
+
 End Sim.
